@@ -301,6 +301,12 @@ Fixpoint mqtt_spec (c : mqtt_cfg) (r : register) (h : list mev) : list pubmsg :=
   | _ :: h' => mqtt_spec c r h'
   end.
 
+(* order-preserving sub-sequence: [sub a b] = a is b with some elements left out *)
+Inductive sub {A : Type} : list A -> list A -> Prop :=
+| sub_nil : forall l, sub [] l
+| sub_keep : forall x l1 l2, sub l1 l2 -> sub (x :: l1) (x :: l2)
+| sub_skip : forall x l1 l2, sub l1 l2 -> sub l1 (x :: l2).
+
 (* entry points for the correspondence oracle *)
 Definition file_observe (f : fmt) (us : list update) : list lineval * list sym :=
   (file_lines f us, snd (lines_of (file_out f us))).
